@@ -54,7 +54,7 @@ Definition run_proj (x : sexp) : string :=
   end.
 
 Definition d_pquirks (s : string) : pquirks :=
-  {| q_ignored_enums := bit s 0; q_values_insert := bit s 1 |}.
+  {| q_ignored_enums := bit s 0; q_values_insert := bit s 1; q_keywords_table := bit s 2; q_var_default_ns := bit s 3 |}.
 Definition d_cfg (x : sexp) : option cfg :=
   match x with
   | SList [t; i; b] =>
